@@ -20,7 +20,7 @@ RULE = ('payload {link->outside file abs/rel, link->outside dir abs/rel, danglin
         'payload {yes,no}; plus {file, tree, link} x reach x command with an info file named .trashinfo / ..trashinfo / ...trashinfo and a file beside files/ and info/; every payload x {direct, XDG symlink} x 4 commands again with geteuid() = 1000; second stage: for every payload x reach {direct, .Trash-uid symlink, info symlink; thorough + XDG symlink} x command {empty, empty 0, rm *; thorough + rm exact} every operation of the fault-free trace answers with every errno it can return, once and (mutating calls) persistently - containment oracle only; non-trivial = at least one deletion syscall was issued; distinct = (payload, name, reach, command, outcome)')
 PAYLOADS = ['lf-abs', 'lf-rel', 'ld-abs', 'ld-rel', 'dang', 'tree1', 'tree2', 'tree3', 'tree000', 'file']
 NAMES = ['plain', 'dbl', 'newline']
-STRAYS = ['.trashinfo', '..trashinfo', '...trashinfo']
+STRAYS = ['.trashinfo', '..trashinfo', '...trashinfo', 'old0.bak', 'zz']          # the last two: not info files at all, with names shorter than the suffix
 REACH = ['direct', 'xdg-link', 'alt-link', 'info-link', 'home-named-info', 'tdopt-dotdot']
 CMDS = ['empty', 'empty0', 'rm-star', 'rm-exact', 'empty-v', 'empty0-v']
 
@@ -78,6 +78,7 @@ def add_payload(W, path, pl, rel_out):
                 d = d + '/s%d' % i
                 W.dir(d, mode=0o755)
             W.link(d + '/to-dir', '/outside/dir')
+            W.link(d + '/to-dir2', '/outside/dir')          # two links to a directory next to each other in any sorted listing
             W.link(d + '/to-file', '/outside/file')
             W.link(d + '/to-parent', '..')
         if pl == 'tree000':
